@@ -769,3 +769,26 @@ Proof.
   split; [|exact E]. unfold constraint_ok. rewrite Hw, nth_slice_seq, E.
   destruct (k_kind c); try discriminate; reflexivity.
 Qed.
+
+(** * When the trial count is a whole number of repetitions *)
+Lemma ceil_div_mul : forall m n, 0 < n -> ceil_div (m * n) n = m.
+Proof.
+  intros m n Hn. symmetry. apply (lt_char_unique (fun j => j * n < m * n)).
+  - intro j. split; intro H; nia.
+  - intro j. apply ceil_div_lt. exact Hn.
+Qed.
+
+(** [m] whole repetitions of [n] trials: the windows [j*n, (j+1)*n), j < m *)
+Theorem chunk_windows_exact : forall m n, 0 < n ->
+  chunk_windows n (m * n) = map (fun j => (j * n, (j + 1) * n)) (seq 0 m).
+Proof.
+  intros m n Hn. unfold chunk_windows. rewrite ceil_div_mul by exact Hn. apply map_ext_in. intros j Hj.
+  apply in_seq in Hj. unfold chunk_window. f_equal. apply Nat.min_l. nia.
+Qed.
+
+(** one repetition: the whole sequence *)
+Theorem chunk_windows_one : forall T, 0 < T -> chunk_windows T T = [(0, T)].
+Proof.
+  intros T HT. pose proof (chunk_windows_exact 1 T HT) as X. rewrite Nat.mul_1_l in X. rewrite X. cbn.
+  rewrite Nat.add_0_r. reflexivity.
+Qed.
